@@ -155,6 +155,31 @@ func runC13(r *Result, thorough bool) {
 				anchors = append(anchors, k)
 			}
 		}
+		// anchors whose frame carries two or more validator sets that are not yet in force (two
+		// changes accepted inside one activation window) come first
+		if !thorough {
+			multi := []int{}
+			for k := 0; k < len(a.blocks)-1; k++ {
+				if fr, err := a.store.GetFrame(a.blocks[k].RoundReceived()); err == nil {
+					pend := 0
+					for rd := range fr.PeerSets {
+						if rd > fr.Round {
+							pend++
+						}
+					}
+					if pend >= 2 {
+						multi = append(multi, k)
+					}
+				}
+			}
+			if len(multi) > 2 {
+				multi = []int{multi[0], multi[len(multi)/2]}
+			}
+			if len(multi) > 0 {
+				r.Inc("anchors_with_two_pending_changes", len(multi))
+			}
+			anchors = append(multi, anchors...)
+		}
 		seen := map[int]bool{}
 		nontrivial := false
 		for ai, k := range anchors {
@@ -225,6 +250,24 @@ func runC13(r *Result, thorough bool) {
 							} else {
 								shape = "round-differs"
 							}
+							break
+						}
+						if ea.VerifRoundReceived() != nil && eb.VerifRoundReceived() != nil && frA != nil &&
+							*ea.VerifRoundReceived() <= frA.Round && *eb.VerifRoundReceived() > frA.Round {
+							// received at or before the anchor on the full-history node, yet shipped neither as
+							// a frame event nor inside a root: the reset node receives it again, later
+							shape = "received-before-anchor-not-shipped"
+							_, hasRoot := frA.Roots[g.ev.Creator()]
+							first := -1
+							for rd, ps := range frA.PeerSets {
+								for _, p := range ps {
+									if p.PubKeyString() == g.ev.Creator() && (first < 0 || rd < first) {
+										first = rd
+									}
+								}
+							}
+							detail = fmt.Sprintf(" [event %s creator %d index %d: full node round %s rr %s; reset node round %s rr %s; anchor frame round %d; creator has a root in the frame: %v; creator's first validator set in the frame: round %d]",
+								g.name, g.creator, g.ev.Index(), fo(ea.VerifRound()), fo(ea.VerifRoundReceived()), fo(eb.VerifRound()), fo(eb.VerifRoundReceived()), frA.Round, hasRoot, first)
 							break
 						}
 						if ea.VerifRoundReceived() != nil && eb.VerifRoundReceived() == nil && *ea.VerifRoundReceived() <= b.store.LastRound()-2 {
